@@ -533,6 +533,13 @@ def directed():
                      [[17, 15, 0, 0], [18, 15, 0, 0]]])]
     out.append(dict(start_us=st7, blocks=b7, latency=[], read_cost=1,
                     timeline=_tl(st7, b7, [dict(k='stall', at=1800 * US - 10_000, us=40_000)], 11)))
+    # end points of two blocks 1 us apart: the next alarm point is already over when the first one has
+    # been served (the sleep time towards it is negative)
+    st8 = abs_of(dt.datetime(2024, 6, 15, 9, 59, 0))
+    b8 = [_td(times=[[[10, 0, 0, 1], [10, 0, 0, 3]], [[10, 30, 0, 0], [10, 30, 0, 1]]]),
+          _td(times=[[[10, 0, 0, 2], [10, 0, 0, 4]]])]
+    for cost in (1, 5, 40):
+        out.append(dict(start_us=st8, blocks=b8, latency=[], read_cost=cost, timeline=_tl(st8, b8, [], 2)))
     return out
 
 
@@ -553,7 +560,7 @@ def check(run):
                        "datetime field extraction (year..microsecond, isoweekday) is trusted Python",
                        "wake-up latency and clock-read cost are inputs of the scenario, at most 1.5 ms",
                        "the wall-clock instants of the boundaries near a sample are computed by the harness"]
-    n = 40 if run.tier == 'quick' else 600
+    n = 40 if run.tier == 'quick' else 1200
     cases = directed() + [gen_case(run.rng, run.tier) for _ in range(n)]
     for c in cases:
         run.count('blocks_%d' % len(c['blocks']))
